@@ -163,7 +163,11 @@ func (w *world) files() (configFile string, suiteFiles []string, err error) {
 		if err != nil {
 			return "", nil, err
 		}
-		certFile := filepath.Join(w.dir, "suite-certs.yaml")
+		// same base name as the first suite file, another directory
+		if err := os.MkdirAll(filepath.Join(w.dir, "certs"), 0o755); err != nil {
+			return "", nil, err
+		}
+		certFile := filepath.Join(w.dir, "certs", "suite.yaml")
 		if err := os.WriteFile(certFile, data, 0o644); err != nil {
 			return "", nil, err
 		}
